@@ -9,8 +9,6 @@ import LaunchpadModel.Model.WhitelistFull
 -/
 namespace LP.WF
 open LP
-set_option profiler true
-set_option profiler.threshold 2000
 
 /-! ## funds -/
 
